@@ -56,6 +56,7 @@ class MethodFacts:
     fi: FuncInfo
     reads: Set[str] = field(default_factory=set)
     tests: Set[str] = field(default_factory=set)
+    raw_tests: List[tuple] = field(default_factory=list)  # (attr, empty_when_true, If node)
     fills: Dict[str, List[ast.AST]] = field(default_factory=dict)  # non-empty assignment / subscript store
     resets: Dict[str, List[ast.AST]] = field(default_factory=dict)  # assignment of an empty value / .clear()
     mutates: Dict[str, List[ast.AST]] = field(default_factory=dict)  # any write to the attribute or its contents
@@ -72,6 +73,13 @@ def method_facts(fi: FuncInfo) -> MethodFacts:
             a = _self_attr(n.value, selfname)
             if a is not None:
                 alias[n.targets[0].id] = a
+        # chained assignment `cache = self.A = {}`: the local is the attribute's object
+        if isinstance(n, ast.Assign) and len(n.targets) > 1:
+            attrs = [_self_attr(t, selfname) for t in n.targets if _self_attr(t, selfname) is not None]
+            if len(attrs) == 1:
+                for t in n.targets:
+                    if isinstance(t, ast.Name):
+                        alias[t.id] = attrs[0]
     for n in ast.walk(fi.node):
         a = _self_attr(n, selfname)
         if a is not None and isinstance(getattr(n, "ctx", ast.Load()), ast.Load):
@@ -120,6 +128,8 @@ def method_facts(fi: FuncInfo) -> MethodFacts:
                 while isinstance(base, ast.Subscript):
                     base = base.value
                 a = _self_attr(base, selfname)
+                if a is None and isinstance(base, ast.Name) and base.id in alias:
+                    a = alias[base.id]
                 if a is not None:
                     mf.mutates.setdefault(a, []).append(n)
                     mf.fills.setdefault(a, []).append(n)
@@ -163,6 +173,7 @@ def method_facts(fi: FuncInfo) -> MethodFacts:
         if not isinstance(n, ast.If):
             continue
         for (a, empty_when_true) in classify(n.test):
+            mf.raw_tests.append((a, empty_when_true, n))
             fills = mf.fills.get(a, [])
             if not fills:
                 continue
@@ -216,6 +227,20 @@ def class_memos(ctx: Context, cls: ClassInfo) -> Tuple[List[Memo], Dict[str, Met
             return False
         return True
 
+    # test-and-fill split over a helper: `if self.A is None: self._fill_A()` with the fill in (a callee of) the helper
+    for name, mf in facts.items():
+        if name in ("__init__", "__post_init__", "__setstate__"):
+            continue
+        for (a, empty_when_true, ifnode) in mf.raw_tests:
+            if a in mf.tests:
+                continue
+            empty_side = ifnode.body if empty_when_true else ifnode.orelse
+            for st in empty_side:
+                for c in ast.walk(st):
+                    if isinstance(c, ast.Call) and isinstance(c.func, ast.Attribute) and isinstance(c.func.value, ast.Name) and c.func.value.id == (mf.fi.params[0] if mf.fi.params else "self"):
+                        if a in closure(c.func.attr, "fills"):
+                            mf.tests.add(a)
+                            mf.fills.setdefault(a, []).append(c)
     memos: List[Memo] = []
     all_memo_attrs = set()
     for name, mf in facts.items():
